@@ -24,6 +24,7 @@ import PyTough.Model.Mapping
 import PyTough.Proofs.MappingRefine2
 import PyTough.Proofs.MappingMoreNearest
 import PyTough.Proofs.MappingMoreIdentity
+import PyTough.Proofs.MappingMoreGen
 
 namespace Props.C19
 open Py Model.Mapping
@@ -526,5 +527,103 @@ example : blockMapping nearestIdx (exSrc 1) (exSrc 0) = .error .keyError ∧
 -- source type 0, target type 1: the block over column 'b' goes to the single atmosphere block
 example : image (blockMapping nearestIdx (exSrc 0) (exSrc 1)) [' ', ' ', 'b', ' ', '0'] = some ['A', 'T', 'M', ' ', '0'] := by decide +kernel
 example : image (blockMapping nearestIdx (exSrc 2) (exSrc 1)) [' ', ' ', 'b', ' ', '0'] = some [' ', ' ', 'b', ' ', '0'] := by decide +kernel
+
+/-! ### transferring generators between DIFFERENT geometries (round 3)
+
+  `generator_transfer_identity` covers identical geometries.  Here: any two geometries, any
+  mappings (passed in, or computed by `block_mapping` when either is empty: `effectiveMaps`),
+  `rename` and `preserve_totals` on or off — whenever `transfer_generators_from` returns.
+  The new `generatorlist` is the concatenation `ls.flatten` of one list per source generator, in
+  source order; generator number `i` yields `ls[i]` and every item of it records `src = i`, so
+  the statement is by POSITION: source lists with repeated generator names are covered. -/
+
+/-- `[b for b in self.grid.blocklist if mapping[b.name] == k]` (name, volume) -/
+def mappedBlocks (m : Dict Str) (k : Str) (tgrid : List (Str × Rat)) : List (Str × Rat) :=
+  tgrid.filter (fun b => decide (dget m b.1 = .ok k))
+
+/-- `[c for c in incols if colmapping[c.name] == k]` -/
+def mappedCols (cm : Dict Str) (k : Str) (incols : List Col) : List Col :=
+  incols.filter (fun c => decide (dget cm c.name = .ok k))
+
+/-- the target columns whose centre lies inside the source geometry (`incolFlags`, an input) -/
+def insideCols (t : Geo) (flags : List Bool) : List Col := ((t.cols.zip flags).filter (·.2)).map (·.1)
+
+/-- A source generator that is not a column (top/bottom) generator is moved to the MAPPED blocks:
+    it is copied once onto every target block whose image under the block mapping is the
+    generator's block — exactly those, in grid order (`p.2.block = p.1.1`,
+    `mapping[p.2.block] = sg.block`).  Its `gx`/`rate` are scaled by (target block volume) /
+    (source block volume), or / (total volume of the mapped blocks) with `preserve_totals`;
+    its name is kept, or with `rename` rebuilt from its category and the new block's column. -/
+theorem generator_transfer_interior (q : List (Rat × Rat) → Rat × Rat → Nat) (gens : List Gen) (s t : Geo)
+    (sgridVol : Dict Rat) (tgrid : List (Str × Rat)) (flags : List Bool) (top bottom : List Str)
+    (mp cmp : Dict Str) (rename preserve : Bool) (outs : List GenOut)
+    (h : transferGenerators q gens s t sgridVol tgrid flags top bottom mp cmp rename preserve = .ok outs) :
+    ∃ (m cm : Dict Str) (ls : List (List GenOut)), effectiveMaps q s t mp cmp = .ok (m, cm) ∧
+      outs = ls.flatten ∧ ls.length = gens.length ∧
+      ∀ (i : Nat) (sg : Gen), gens[i]? = some sg → (top ++ bottom).contains (layerName s.conv sg.name) = false →
+        ∃ l svol, ls[i]? = some l ∧ dget sgridVol sg.block = .ok svol ∧
+          l.length = (mappedBlocks m sg.block tgrid).length ∧
+          ∀ p ∈ (mappedBlocks m sg.block tgrid).zip l,
+            p.2.src = i ∧ p.2.block = p.1.1 ∧ dget m p.2.block = .ok sg.block ∧
+            (if preserve then sumQ ((mappedBlocks m sg.block tgrid).map (·.2)) else svol) ≠ 0 ∧
+            scaleGen sg (p.1.2 / (if preserve then sumQ ((mappedBlocks m sg.block tgrid).map (·.2)) else svol))
+              = .ok (p.2.gx, p.2.rate) ∧
+            (rename = false → p.2.name = sg.name) ∧
+            (rename = true → ∃ cat, (if t.conv = s.conv then .ok (layerName s.conv sg.name)
+                 else pick3 t.conv [' ', '0'] (layerName s.conv sg.name) : Except Exc Str) = .ok cat ∧
+               blockName t.conv cat (columnName t.conv p.1.1) = .ok p.2.name) :=
+  Proofs.Mapping.generators_interior q gens s t sgridVol tgrid flags top bottom mp cmp rename preserve outs h
+
+/-- A column generator (its category — the layer part of its name — is listed in `top` or
+    `bottom`) is moved to the MAPPED columns: one copy for every target column inside the source
+    whose image under the column mapping is the column of the generator's block, in column
+    order; the copy sits on the block of that column's top layer (`column_surface_layer`) for a
+    top generator, of the bottom layer for a bottom generator; `gx`/`rate` are scaled by (target
+    column area) / (source column area), or / (total area of the mapped columns) with
+    `preserve_totals`; the name is (category, new column). -/
+theorem generator_transfer_column (q : List (Rat × Rat) → Rat × Rat → Nat) (gens : List Gen) (s t : Geo)
+    (sgridVol : Dict Rat) (tgrid : List (Str × Rat)) (flags : List Bool) (top bottom : List Str)
+    (mp cmp : Dict Str) (rename preserve : Bool) (outs : List GenOut)
+    (h : transferGenerators q gens s t sgridVol tgrid flags top bottom mp cmp rename preserve = .ok outs) :
+    ∃ (m cm : Dict Str) (ls : List (List GenOut)), effectiveMaps q s t mp cmp = .ok (m, cm) ∧
+      outs = ls.flatten ∧ ls.length = gens.length ∧
+      ∀ (i : Nat) (sg : Gen), gens[i]? = some sg → (top ++ bottom).contains (layerName s.conv sg.name) = true →
+        ∃ l area, ls[i]? = some l ∧
+          l.length = (mappedCols cm (columnName s.conv sg.block) (insideCols t flags)).length ∧
+          (preserve = true → area = sumQ ((mappedCols cm (columnName s.conv sg.block) (insideCols t flags)).map (·.area))) ∧
+          (preserve = false → ∃ C, s.findCol (columnName s.conv sg.block) = .ok C ∧ area = C.area) ∧
+          ∀ p ∈ (mappedCols cm (columnName s.conv sg.block) (insideCols t flags)).zip l,
+            p.2.src = i ∧ p.1 ∈ t.cols ∧ dget cm p.1.name = .ok (columnName s.conv sg.block) ∧
+            area ≠ 0 ∧ scaleGen sg (p.1.area / area) = .ok (p.2.gx, p.2.rate) ∧
+            (∃ ln, colGenLayer t top (layerName s.conv sg.name) p.1 = .ok ln ∧
+                blockName t.conv ln p.1.name = .ok p.2.block) ∧
+            (∃ cat, colGenCategory s t (top ++ bottom) (layerName s.conv sg.name) = .ok cat ∧
+                blockName t.conv cat p.1.name = .ok p.2.name) :=
+  Proofs.Mapping.generators_column q gens s t sgridVol tgrid flags top bottom mp cmp rename preserve outs h
+
+/-- block volumes: 1000 in `exSrc 2`, 125 in `exTgt 2` -/
+def exSVol : Dict Rat := match (exSrc 2).blockNameList with | .ok ns => ns.map (fun n => (n, 1000)) | .error _ => []
+def exTGrid : List (Str × Rat) := match (exTgt 2).blockNameList with | .ok ns => ns.map (fun n => (n, 125)) | .error _ => []
+/-- two interior generators WITH THE SAME NAME (blocks '  a 2', '  b 3') and a top generator on column 'b' -/
+def exGens2 : List Gen :=
+  [⟨[' ', ' ', 'a', 'w', 'l'], [' ', ' ', 'a', ' ', '2'], ['M', 'A', 'S', 'S'], none, some 8, none⟩,
+   ⟨[' ', ' ', 'a', 'w', 'l'], [' ', ' ', 'b', ' ', '3'], ['M', 'A', 'S', 'S'], none, some 8, none⟩,
+   ⟨[' ', ' ', 'b', '9', '9'], [' ', ' ', 'b', ' ', '2'], ['H', 'E', 'A', 'T'], none, some 6, none⟩]
+
+-- the call returns (coarse `exSrc 2` onto fine `exTgt 2`, computed mappings, preserve_totals): (src, block, gx) of the
+-- new list: each 'awl' generator lands on the four target blocks mapped to its block with a quarter of gx;
+-- the top generator on the top blocks of the two target columns mapped to column 'b' with half of gx
+example : (match transferGenerators nearestIdx exGens2 (exSrc 2) (exTgt 2) exSVol exTGrid [true, true, true, true]
+      [['9', '9']] [['9', '8']] [] [] false true with
+    | .ok outs => outs.map (fun o => (o.src, o.block, o.gx))
+    | .error _ => []) =
+    [(0, [' ', 'c', ' ', ' ', '1'], some 2), (0, [' ', 'c', ' ', ' ', '2'], some 2),
+     (0, [' ', 'd', ' ', ' ', '1'], some 2), (0, [' ', 'd', ' ', ' ', '2'], some 2),
+     (1, [' ', 'e', ' ', ' ', '3'], some 2), (1, [' ', 'e', ' ', ' ', '4'], some 2),
+     (1, [' ', 'f', ' ', ' ', '3'], some 2), (1, [' ', 'f', ' ', ' ', '4'], some 2),
+     (2, [' ', 'a', ' ', ' ', '3'], some 3), (2, [' ', 'b', ' ', ' ', '4'], some 3)] := by decide +kernel
+-- and with rename, without preserve_totals
+example : (transferGenerators nearestIdx exGens2 (exSrc 2) (exTgt 2) exSVol exTGrid [true, true, true, true]
+      [['9', '9']] [['9', '8']] [] [] true false).toBool = true := by decide +kernel
 
 end Props.C19
